@@ -563,3 +563,45 @@ func analyseMethodSet(as AnalysisSpec, progs []*Program, cs *Contracts, funcs []
 	ar.Summary = fmt.Sprintf("method set of *%s: %d methods", tk, len(ar.Obls))
 	return ar
 }
+
+func init() {
+	analyses["fold-sanity"] = analyseFoldSanity
+}
+
+// analyseFoldSanity: the ground axiom instances used for map sums assume non-negative weights; prove
+// it for every declared fold (for arbitrary key and value; strings have non-negative length).
+func analyseFoldSanity(as AnalysisSpec, progs []*Program, cs *Contracts, funcs []*FuncResult, work string, timeout time.Duration) *AnalysisResult {
+	ar := &AnalysisResult{Name: as.Name}
+	var names []string
+	for n := range cs.Folds {
+		names = append(names, n)
+	}
+	sort.Strings(names)
+	for _, n := range names {
+		f := cs.Folds[n]
+		o := &OblResult{Name: "fold/" + n + "/nonneg", Kind: "fold-nonneg", Func: "fold " + n, Desc: "weight " + f.Body.Text + " is non-negative", Result: "discharged"}
+		ar.Obls = append(ar.Obls, o)
+		if f.KType != "string" || f.VType != "string" || len(progs) == 0 || len(progs[0].All) == 0 {
+			o.Result, o.Why = "undecided", "only string->string folds are supported"
+			continue
+		}
+		e := NewEngine(progs[0], cs, progs[0].All[0], &CheckConfig{})
+		s := &State{Decl: map[string]bool{}, Heap: map[string]string{}, Ghost: map[string]string{}}
+		s.Frames = []*Frame{{Fn: progs[0].All[0]}}
+		k := e.declare(s, "k", "Str")
+		v := e.declare(s, "v", "Str")
+		s.assume(and(app(">=", app("slen", k), "0"), app(">=", app("slen", v), "0")))
+		c := &SpecCtx{Fn: progs[0].All[0], Params: map[string]*Val{}, PTypes: map[string]types.Type{}, Bound: map[string]*SV{}}
+		c.Bound[f.KName] = &SV{V: &Val{L: []string{k}}, Sort: "Str", T: types.Typ[types.String]}
+		c.Bound[f.VName] = &SV{V: &Val{L: []string{v}}, Sort: "Str", T: types.Typ[types.String]}
+		w := e.evalTerm(s, c, f.Body.Expr)
+		q := &Query{Lines: s.Lines, Goal: app(">=", w, "0")}
+		sr := Solve(work, "fold."+n, e.assemble(q, true), timeout, "")
+		o.Ms, o.Backend, o.Queries = sr.Ms, sr.Solver, 1
+		if sr.Result != "unsat" {
+			o.Result, o.Why = "failed", "weight may be negative ("+sr.Result+")"
+		}
+	}
+	ar.Summary = fmt.Sprintf("%d folds", len(names))
+	return ar
+}
